@@ -182,6 +182,9 @@ class World(DuoWorld):
         self.caller.cursor = len(self.caller.inbox)
         self.ops_left = 2 + ch.choose(6, "ncalls")
         self.late_defines_left = ch.choose(3, "n-late-defines", (4, 2, 1))
+        self.tb_toggles_left = ch.choose(3, "n-traceback-toggles", (4, 2, 1))
+        self.tb_initial = self.cfg["traceback"]
+        self.tb_history = []
         self.run.log("cfg", sorted((k, repr(v)) for k, v in cfg.items()))
         self.next_inv = 7000
 
@@ -277,7 +280,19 @@ class World(DuoWorld):
             acts.append((3.0, "interrupt", self.interrupt))
         if self.late_defines_left > 0 and self.calls:
             acts.append((1.0, "late-define", self.late_define))
+        if self.tb_toggles_left > 0 and self.calls:
+            acts.append((0.7, "app-toggles-traceback-forwarding", self.toggle_traceback))
         return acts
+
+    def toggle_traceback(self):
+        """the application switches traceback forwarding on or off while the session is in use (a debug switch): every
+        ERROR goes out under the setting in force when it is produced - nothing of an earlier ERROR sticks"""
+        self.tb_toggles_left -= 1
+        self.cfg["traceback"] = not self.cfg["traceback"]
+        self.callee.session.traceback_app = self.cfg["traceback"]
+        self.tb_history.append((len(self.callee.inbox), self.cfg["traceback"]))
+        self.run.fault("traceback-forwarding-toggled")
+        self.run.log("app", "traceback_app =", self.cfg["traceback"])
 
     def late_define(self):
         """the callee registers (or re-registers) an exception class while the session is in use - possibly after an
@@ -379,6 +394,11 @@ class World(DuoWorld):
         M = self.M
         side = self.callee
         msg = side.inbox[side.cursor]
+        # the traceback setting in force when this message was produced
+        tb_on = self.tb_initial
+        for pos, val in self.tb_history:
+            if pos <= side.cursor:
+                tb_on = val
         side.cursor += 1
         rec = None
         for r in self.calls:
@@ -407,7 +427,7 @@ class World(DuoWorld):
             msg = M.Error(msg.request_type, msg.request, msg.error, args=dargs, kwargs=dkw)
         got_kw = dict(msg.kwargs or {})
         tb = got_kw.pop("traceback", None)
-        if self.cfg["traceback"]:
+        if tb_on:
             if tb is None:
                 self.run.violate("C18.uri-args-kwargs", "traceback-not-forwarded", rec.tok)
         elif tb is not None:
